@@ -31,9 +31,10 @@ package samlsp
 //@ ensures[C16] subject: assertion.Subject != nil && assertion.Subject.NameID != nil ==> sessionClaims(result).Subject == assertion.Subject.NameID.Value
 //@ -- attributes accumulate: every value of every attribute is appended to what its claim name (friendly name, else name)
 //@ -- already holds - repeated attributes lose nothing - and the session index is appended likewise
-//@ assert@store[C16] Attributes[] #1 (k string, v []string) uses claims JWTSessionClaims, attr saml.Attribute, value saml.AttributeValue, claimName string appends_value_under_claim_name:
-//@    k == claimName && (attr.FriendlyName != "" ==> claimName == attr.FriendlyName) && (attr.FriendlyName == "" ==> claimName == attr.Name) &&
-//@    len(v) == len(claims.Attributes[k])+1 && v[len(v)-1] == value.Value &&
+//@ assert@store[C16] Attributes[] #1 (k string, v []string) uses claims JWTSessionClaims, attr saml.Attribute appends_value_under_claim_name:
+//@    (attr.FriendlyName != "" ==> k == attr.FriendlyName) && (attr.FriendlyName == "" ==> k == attr.Name) &&
+//@    len(v) == len(claims.Attributes[k])+1 &&
+//@    exists(0, len(attr.Values), func(j int) bool { return v[len(v)-1] == attr.Values[j].Value }) &&
 //@    forall(0, len(claims.Attributes[k]), func(j int) bool { return v[j] == claims.Attributes[k][j] })
 //@ assert@store[C16] Attributes[] #2 (k string, v []string) uses claims JWTSessionClaims, authnStatement saml.AuthnStatement appends_session_index:
 //@    k == claimNameSessionIndex && len(v) == len(claims.Attributes[k])+1 && v[len(v)-1] == authnStatement.SessionIndex
